@@ -19,7 +19,7 @@ from qrv.oracles import units as U
 LEVEL = "exploration"
 RULE = ("systems and baths as in C01 restricted to Redfield (standard, time dependent) and Lindblad forms; each case builds the operator-form and the tensor-form "
         "object from the same inputs and applies both to 3 random Hermitian, 3 random non-Hermitian operators and all N^2 matrix units outside any context, inside "
-        "eigenbasis_of(H) and inside the eigenbasis of a random operator, before and after convert_2_tensor(); propagations of random states in both forms; "
+        "eigenbasis_of(H) and inside the eigenbasis of a random operator, before and after convert_2_tensor(); propagations of random states in both forms, also with a propagator object made before the conversion and used after it (outside and inside two contexts); "
         "TD tensor end points; uncoupled aggregates of 1-4 sites with distinct baths for the exact limit. distinct = (class, N, rounded parameters); non-trivial iff "
         "the tensor has elements outside the secular pattern (so the two forms exercise different code) resp. Re g(Tmax) > 1 for the exact limit.")
 ASSUMPTIONS = ["'equals' for TD[-1] vs the time-independent tensor is judged at 1e-9 relative (both are integrals of the same samples)",
